@@ -463,7 +463,7 @@ prop("C13", engine="e1", program="c13", rule=(
     "encoded tables; stage B is the same registry compiled with the "
     "generated files by g++ and by clang++, decodes instead of updating and "
     "must reproduce the record"),
-    quick=dict(cases=4000, size=60), thorough=dict(cases=100000, size=100))
+    quick=dict(cases=4000, size=60), thorough=dict(cases=30000, size=100))
 prop("C14", engine="e1", rule=(
     "stateful over 2..3 policies (rebind / replace / remove compositions: "
     "checked hash, fast hash, map, no hash, indirect) sharing class ids, "
@@ -1005,11 +1005,20 @@ def check(pid, tier, seed):
             json.dump(fl, f)
         fexe = build(fl.get("engine") or cfg["engine"])
         if fl.get("crash"):
-            subprocess.run([fexe, "--shrink", tmp, "--out", tmp],
-                           env=worker_env(1, 1, 1),
-                           stdout=subprocess.DEVNULL)
-            with open(tmp) as f:
-                fl = json.load(f)
+            # bounded: shrinking only makes the witness smaller (under
+            # ThreadSanitizer every candidate is a multi-threaded run)
+            try:
+                subprocess.run([fexe, "--shrink", tmp, "--out", tmp],
+                               env=worker_env(1, 1, 1),
+                               stdout=subprocess.DEVNULL, timeout=600)
+            except subprocess.TimeoutExpired:
+                pass
+            try:
+                with open(tmp) as f:
+                    fl = json.load(f)
+            except ValueError:
+                with open(tmp, "w") as f:
+                    json.dump(fl, f)
         if cfg.get("tsan"):
             # a ThreadSanitizer report is evidence in itself (happens-before
             # analysis, not a timing observation): one reproduction suffices
